@@ -34,19 +34,20 @@ META = {
     "technique": "TLA+ semantics of generated JDF programs (TLC) + real ptgpp/runtime executions + trace validation (TLC)",
 }
 
-SCHEDS_QUICK = ["lfq", "ap", "spq", "ll"]
 SCHEDS_ALL = ["ap", "gd", "ip", "lfq", "lhq", "ll", "llp", "ltq", "pbq", "rnd", "spq"]
 
 
 def configs(ctx):
     out = []
     if ctx.quick:
-        # 4 schedulers x {1, 4} threads; startup parameters 1 / default alternate
-        for i, s in enumerate(SCHEDS_QUICK):
-            out.append({"sched": s, "cores": 4, "conc": 64, "iter": (1 if i % 2 else None), "chunk": (None if i % 2 else 1)})
-            # (the ll module documents that it cannot wait actively with a single thread: 2 threads there)
-            out.append({"sched": s, "cores": (2 if s == "ll" else 1), "conc": (1 if i == 0 else 64),
-                        "iter": (None if i % 2 else 1), "chunk": (1 if i % 2 else None)})
+        # 4 schedulers, 1..4 threads; startup parameters 1 / default alternate; one run with sequential taskpools
+        # (the ll module documents that it cannot wait actively with a single thread: 2 threads there)
+        out = [{"sched": "lfq", "cores": 4, "conc": 64, "iter": None, "chunk": 1},
+               {"sched": "lfq", "cores": 1, "conc": 1, "iter": 1, "chunk": None},
+               {"sched": "ap", "cores": 4, "conc": 64, "iter": 1, "chunk": None},
+               {"sched": "ap", "cores": 1, "conc": 64, "iter": None, "chunk": 1},
+               {"sched": "spq", "cores": 3, "conc": 64, "iter": 1, "chunk": 1},
+               {"sched": "ll", "cores": 2, "conc": 64, "iter": None, "chunk": None}]
     else:
         k = 0
         for s in SCHEDS_ALL:
